@@ -94,7 +94,12 @@ def _dump_reader(r, stats, vectors, columns, keyfield):
     if columns:
         cols = {}
         for f, fobj in schema.items():
-            if fobj.column_type and r.has_column(f):
+            if fobj.column_type:
+                # (whether a column *file* exists in some segment is layout; the values - default where
+                # missing - are content)
+                if not keyof:
+                    cols[f] = {}
+                    continue
                 cr = r.column_reader(f)
                 cols[f] = dict((k, repr(cr[dn])) for dn, k in keyof.items())
         d["columns"] = cols
